@@ -93,8 +93,8 @@ CHECKS.update({
 })
 CHECKS.update({
     "C06": _c("mirfacts+grammardump", "symbolic interpretation of every Display body's MIR into path conditions + output templates; model finding over finite candidate sets (predicate abstraction with the printer's own comparison constants and the grammar's token ranges); PEG matcher on the grammar with token alignment; injectivity of the extracted printer on the explored values; reads() completeness; token tables",
-              "Decides: every output shape of every Display impl of the syntax tree (all MIR paths; lists of length 0, 1, >=2; all 32x32 nth tables in the thorough tier) is a sentence of the grammar rule the builder turns into that node type, up to whole rule sequences and two-rule expressions from the start rule, with each printed child read back by a token of its own rule; no two explored values that differ print the same text (nothing is silently dropped or half compared); every field is read by its printer; printed tokens are the grammar's tokens of the same variant; Python str/repr print that text. Found and fixed: PH offsets, event offsets, Y-Y/n, missing `/` before repeats, and a lone year merging into the first date (`2020Jan 5,Feb 3`). Does not decide that the re-parsed tree evaluates identically, values outside the representative classes, lists beyond two elements.",
-              "DESIGN.md section 3, C06", _TB + "Shapes no parse can produce are excluded through five feasibility rows, each tied to a grammar fact re-checked on every run. Trusted: the PEG matcher and symbolic printer of this repository (unmodelled constructs fail closed)."),
+              "Decides: every output shape of every Display impl of the syntax tree (all MIR paths; lists of length 0, 1, >=2; all 32x32 nth tables in the thorough tier) is a sentence of the grammar rule the builder turns into that node type, up to whole rule sequences and two-rule expressions from the start rule, with each printed child read back by a token of its own rule; no two explored values that differ print the same text (nothing is silently dropped or half compared); every field is read by its printer; printed tokens are the grammar's tokens of the same variant; Python str/repr print that text. Found and fixed: PH offsets, event offsets, Y-Y/n, missing `/` before repeats, a lone year merging into the first date (`2020Jan 5,Feb 3`), and `Su[2-1] +1 day` -> `Su +1 day`. Does not decide that the re-parsed tree evaluates identically, values outside the representative classes, lists beyond two elements.",
+              "DESIGN.md section 3, C06", _TB + "Shapes no parse can produce are excluded through four feasibility rows, each tied to a grammar fact re-checked on every run and re-read against the builder (a fifth row was wrong, hid `Su[2-1] +1 day` -> `Su +1 day`, and was removed). Trusted: the PEG matcher and symbolic printer of this repository (unmodelled constructs fail closed)."),
 })
 ENGINES[0]["serves_properties"] = sorted(CHECKS.keys())
 ENGINES.append({"name": "grammardump", "path": "engines/grammardump", "serves_properties": ["C04", "C05", "C06"], "kind_free_text": "pest_meta front end dumping grammar.pest as JSON; consumed by rules/peg.py (child-sequence DFAs, PEG matcher)"})
